@@ -77,7 +77,8 @@ def run(F, rep):
     if n < 4:
         raise AnalysisBroken('C01.X1: %d sto* sites, 4 confirmed (utilities.cpp x2, units.cpp, validator.cpp)' % n)
     rep.rule('C01.X2', 'every container .at() is a lookup in an exhaustive enum table, or is dominated by a bound/membership test of the same container, or is screened in every caller')
-    n = exc.at_rule(F, rep, 'C01.X2', AT_EXEMPT, enum_exempt=('UNSPECIFIED',))
+    n = exc.at_rule(F, rep, 'C01.X2', AT_EXEMPT, enum_exempt=('UNSPECIFIED',),
+                    parallel={('printConnections', 'variableMap'): ('componentMap', 'componentMap and variableMap are parallel vectors filled pairwise in buildMaps')})
     if n < 60:
         raise AnalysisBroken('C01.X2: %d .at() sites, 69 confirmed' % n)
     rep.rule('C01.X3', 'recognisers are not vacuous: std::all_of over a string is preceded by a non-empty test of that string after its last mutation')
